@@ -172,3 +172,20 @@ pub fn fmt_result<R: pest::RuleType + std::fmt::Display>(r: Result<pest::iterato
         }
     }
 }
+
+/// request: `<struct-name> <grammar-hex>`; reply: `OK <generated rust source in hex>` or ERR/PANIC
+pub fn generate(line: &str) -> String {
+    let (name, g) = line.split_once(' ').unwrap();
+    let text = unhex(g.trim());
+    let name = name.to_string();
+    let r = guarded(move || {
+        let ident = proc_macro2::Ident::new(&name, proc_macro2::Span::call_site());
+        let input = quote::quote! {
+            #[grammar_inline = #text]
+            pub struct #ident;
+        };
+        let ts = pest_generator::derive_parser(input, false);
+        format!("OK {}", hex(&ts.to_string()))
+    });
+    r.unwrap_or_else(|m| format!("PANIC {}", hex(&m)))
+}
